@@ -286,7 +286,7 @@ def run(chk):
         name = rnd.choice(FIELD_NAMES)
         fielddict = {}
         for e in fd:
-            key = e['k'] if e['k'] not in ('zzz',) else rnd.choice(['zzz', 'custom_kind', 'min_len'])
+            key = e['k'] if e['k'] not in ('zzz',) else rnd.choice(['zzz', 'custom_kind', 'min_len', 'values', 'nonnull', 'nodups', 'ok', 'minimum'])
             if e['k'] == '#c':
                 key = rnd.choice(['#c', '# a comment', '#min'])
             fielddict[key] = concretize(e['k'], e['v'], rnd)
